@@ -4,18 +4,34 @@ sys.path.insert(0, os.path.dirname(os.path.dirname(os.path.abspath(__file__))))
 import vlib
 
 PID = "C13"
-LEAN_MODULES = ["QbiceVerif.Props.C13", "QbiceVerif.Props.NonVacuity.C13"]
+LEAN_MODULES = ["QbiceVerif.Props.C13", "QbiceVerif.Props.NonVacuity.C13",
+                "QbiceVerif.Lemmas.HashLocated", "QbiceVerif.Lemmas.HashLocatedDec",
+                "QbiceVerif.Lemmas.HashLocatedSub", "QbiceVerif.Lemmas.HashLocatedFacts"]
 DRIVER = "drv_hash"
 HARNESS_BIN = "hash"
 HARNESS_FEATURES = "extras"
 PARTIAL = [
-    "no _partial theorem: stream_discriminates is the full discrimination statement for every type of the universe "
-    "(hash-ordered collections nested at any depth).  Its 'up to a 128-bit collision' is the explicit disjunct "
-    "SomeCollision (two different multisets of entry streams of one size with equal sub-hash sums mod 2^128) and, in "
-    "fingerprint_discriminates(_all), 'two different byte strings with one SipHash-128 value'; that these events are "
-    "improbable for SipHash is a cryptographic assumption, not a theorem.  (A wrapping SUM of sub-hashes is weaker "
-    "than a hash of the sorted entries: multiset collisions can be searched with generalised-birthday methods; the "
-    "crate documents itself as not for security purposes.)",
+    "no _partial theorem.  Headline of the discriminating half (every type of the universe, hash-ordered collections "
+    "nested at any depth, every hasher): stream_decodes_located / stream_discriminates_located — two different "
+    "well-typed values (not Val.SameUpTo: not equal up to NaN payloads and the iteration order of hash-ordered "
+    "collections) write different streams, OR Val.Located v t w st: a hash-ordered collection c1 inside v and the "
+    "hash-ordered collection c2 at the SAME PATH of w (same hasher state; inside an enclosing hash-ordered collection "
+    "through two entries with equal entry streams) have one length, DIFFERENT multisets of entry streams and EQUAL "
+    "wrapping 128-bit sums of entry sub-hashes (SumCollision on THEIR entry streams; size 1 = two distinct entry "
+    "streams with one sub-hash).  fingerprint_discriminates_located adds the only other event: the two top-level "
+    "streams of v and w are different byte strings with one finalised SipHash-128 value.  Both events are about "
+    "the data of v and w, falsifiable and falsified: located_is_not_free (false for every hasher on types without "
+    "hash-ordered collections), decide-checked false on a nested pair under an injective toy hasher and under "
+    "SipHash-128 (theorem then yields stream / fingerprint inequality), decide-checked true under a weak toy hasher "
+    "(streams of two different values coincide).  stream_discriminates_collision_inside is the flattened reading "
+    "(exists c1 inside v, c2 inside w ...).",
+    "superseded, kept for reference only: stream_discriminates, fingerprint_discriminates, "
+    "fingerprint_discriminates_all — their collision disjunct (SomeCollision / 'some two byte strings collide') is a "
+    "closed proposition about the hasher, true for every hasher by pigeonhole (NonVacuity/C13.lean: "
+    "someCollision_always), so they only establish framing (r1 = r2) beyond the ordered fragment.",
+    "that the located events are improbable for SipHash-128 is a cryptographic assumption, not a theorem.  (A wrapping "
+    "SUM of sub-hashes is weaker than a hash of the sorted entries: multiset collisions can be searched with "
+    "generalised-birthday / k-sum methods; the crate documents itself as not for security purposes.)",
 ]
 ASSUMPTIONS = [
     "target: 64-bit little-endian (usize/isize and default enum discriminants are 8 bytes; the raw bytes of "
@@ -25,7 +41,11 @@ ASSUMPTIONS = [
     "distinct and fit their repr (compiler guarantees; hypotheses `hasType`, `Ty.wf`)",
     "value equality for floats is identity of the bit pattern after NaN canonicalisation: -0.0 and +0.0 hash "
     "differently although `-0.0 == 0.0` (conservative for change detection: never treats a change as no change)",
-    "up to a 128-bit collision: explicit disjunct `SumCollision` / 'two byte strings, one SipHash value' in the theorems",
+    "cryptographic assumption (the only one): the LOCATED events are improbable for seeded SipHash-128 — "
+    "`Val.Located v t w st` (two hash-ordered collections at one path inside v and w with different entry-stream "
+    "multisets and equal sub-hash sums mod 2^128) and 'the two top-level streams of v and w differ but finalise to "
+    "one 128-bit value'; they are explicit disjuncts of stream_discriminates_located / "
+    "fingerprint_discriminates_located, not hidden hypotheses",
 ]
 TRUSTED_EXTRA = [
     "modelled, not verified: `to_le_bytes`, `f32::is_nan`/`f32::NAN` bit patterns, the layout of "
